@@ -118,6 +118,8 @@ where
             if self.old_current > a0 {
                 self.d.equal(a0, b0, self.old_current - a0)?;
             }
+            #[cfg(similar_verif)]
+            crate::verif::hit(4);
             let mut no_finish_d = NoFinishHook::new(&mut self.d);
             myers::diff_deadline(
                 &mut no_finish_d,
@@ -134,6 +136,8 @@ where
     }
 
     fn finish(&mut self) -> Result<(), D::Error> {
+        #[cfg(similar_verif)]
+        crate::verif::hit(5);
         myers::diff_deadline(
             self.d,
             self.old,
